@@ -84,7 +84,8 @@ type GenesisSpec struct {
 	// ExtraBalances are added to bank genesis (with BaseAccounts created when absent)
 	ExtraBalances []banktypes.Balance
 	ExtraAccounts []authtypes.GenesisAccount
-	AccFunds      sdk.Int // per key account, default 10^24
+	AccFunds      sdk.Int  // per key account, default 10^24
+	OmitModules   []string // genesis sections to leave out (the module's InitGenesis is then not run)
 }
 
 func NoMintingAny() *codectypes.Any {
@@ -243,6 +244,9 @@ func BuildGenesis(a *c4eapp.App, enc appparams.EncodingConfig, spec GenesisSpec)
 		d = DefaultDistributorGenesis()
 	}
 	gs[distrtypes.ModuleName] = cdc.MustMarshalJSON(d)
+	for _, m := range spec.OmitModules {
+		delete(gs, m)
+	}
 	return gs, valSet, valPriv
 }
 
